@@ -1089,8 +1089,8 @@ pub fn run(run: &Run) {
          (b) proptest synthetic UCD directories written under /verif/work: UnicodeData.txt with strictly increasing entries (0..40 entries, one input in eleven with 200..2500; single lines and First/Last pairs, \
          adjacent and non-adjacent, gaps from 0 to 0x60000, windows at 0, around the surrogate block, U+E000, U+FDD0, U+FFF0 and U+10FFF0, any of the 29 assigned categories, ccc incl. 9, all 23 bidi classes with run structure, decomposition \
          none/canonical/<wide>/<narrow>/<compat>) plus synthetic Scripts, DerivedJoiningType, PropList, DerivedCoreProperties and HangulSyllableType files (single and \
-         a..b lines, property blocks in generated order); (b2) a table-size sweep: inputs of isolated code points spread over 20 categories so that every table size 1..=1200 (quick) / 1..=20000 (thorough) and \
-         4095..4097, 8191..8193, 16383..16385 is emitted at least once (probed at every 97th boundary and at both ends); half of all inputs use table identifiers \
+         a..b lines, property blocks in generated order); (b2) a table-size sweep: inputs of isolated code points spread over 20 categories so that every table size 1..=1200 (quick) / 1..=10000 (thorough) and \
+         4095..4097, 8191..8193, 16383..16385 (thorough also 20000, 32767..32769, 65535..65537) is emitted at least once (probed at every 97th boundary and at both ends); half of all inputs use table identifiers \
          that differ from the property value they are built from; (c) proptest variations of the pinned UnicodeData files (drop line blocks, flip bidi class / category on \
          lines, merge runs of equal singles into First/Last pairs, insert lines into gaps, truncate the tail), compared at all code points. Never assigns \
          noncharacters (no Unicode version does). The real generators run through their public API configured as in the two build.rs files; emitted Rust text is \
@@ -1134,12 +1134,20 @@ pub fn run(run: &Run) {
     });
 
     // (b2) table-size sweep: isolated single code points spread over 20 categories so that one input yields 20+ tables of
-    // different, chosen sizes; every size 1..=S is produced (S = 1200 quick, 20000 thorough) plus sizes around 4096/8192/16384
-    let smax = run.pick(1200usize, 20000usize);
-    let mut sizes: Vec<usize> = (1..=smax).collect();
-    sizes.extend([4095usize, 4096, 4097, 8191, 8192, 8193, 16383, 16384, 16385]);
+    // different, chosen sizes; every size 1..=S is produced (S = 1200 quick, 10000 thorough) plus sizes around 4096/8192/16384 (thorough: up to 65537)
+    let smax = run.pick(1200usize, 10000usize);
+    let sizes: Vec<usize> = (1..=smax).collect();
     let cats: [u8; 20] = [1, 2, 5, 9, 4, 6, 7, 19, 20, 21, 22, 12, 13, 14, 15, 16, 17, 18, 3, 10];
-    let batches: Vec<Vec<usize>> = sizes.chunks(20).map(|c| c.to_vec()).collect();
+    let mut batches: Vec<Vec<usize>> = sizes.chunks(20).map(|c| c.to_vec()).collect();
+    // larger sizes one or three per input
+    batches.push(vec![4095, 4096, 4097]);
+    batches.push(vec![8191, 8192, 8193]);
+    batches.push(vec![16383, 16384, 16385]);
+    if !run.quick() {
+        for big in [20000usize, 32767, 32768, 32769, 65535, 65536, 65537] {
+            batches.push(vec![big]);
+        }
+    }
     let batches = &batches;
     run.par("table_size_sweep", true, |tid, n, l| {
         for (bi, batch) in batches.iter().enumerate() {
